@@ -31,6 +31,8 @@ pub enum Answer {
 pub struct CWorld {
     pub client: Arc<Client>,
     pub conns: Arc<Mutex<Vec<Arc<Mutex<ConnLog>>>>>,
+    /// per connection: notify to make the server drop it (the client sees the transport end)
+    pub kills: Arc<Mutex<Vec<Arc<tokio::sync::Notify>>>>,
     old: Option<anytls_rs::verif::Dialer>,
 }
 
@@ -48,17 +50,38 @@ impl CWorld {
     /// Must be called on the thread that runs the scenario's (current-thread) runtime, inside it.
     pub fn start(padding: Arc<PaddingFactory>, pool: SessionPoolConfig, answer: Answer) -> CWorld {
         let conns: Arc<Mutex<Vec<Arc<Mutex<ConnLog>>>>> = Arc::new(Mutex::new(vec![]));
+        let kills: Arc<Mutex<Vec<Arc<tokio::sync::Notify>>>> = Arc::new(Mutex::new(vec![]));
         let c2 = conns.clone();
+        let k2 = kills.clone();
         let dialer: anytls_rs::verif::Dialer = Rc::new(move |_addr: &str| {
             let (a, b) = tokio::io::duplex(1 << 20);
             let log = Arc::new(Mutex::new(ConnLog::default()));
             c2.lock().unwrap().push(log.clone());
-            tokio::spawn(serve(b, log, answer));
+            let kill = Arc::new(tokio::sync::Notify::new());
+            k2.lock().unwrap().push(kill.clone());
+            tokio::spawn(async move {
+                tokio::select! {
+                    biased;
+                    _ = kill.notified() => {}
+                    _ = serve(b, log, answer) => {}
+                }
+            });
             Some(Ok(Box::new(a) as Box<dyn anytls_rs::verif::VerifIo>))
         });
         let old = anytls_rs::verif::install_dialer(Some(dialer));
         let client = Arc::new(Client::with_pool_config("pw", "in-memory:1".to_string(), ServerName::try_from("localhost").unwrap(), connector(), padding, pool));
-        CWorld { client, conns, old }
+        CWorld { client, conns, kills, old }
+    }
+
+    /// The server drops connection `i` (abruptly, as seen from the client: end of the transport).
+    pub fn kill(&self, i: usize) {
+        if let Some(k) = self.kills.lock().unwrap().get(i) {
+            k.notify_one();
+        }
+    }
+
+    pub fn dials(&self) -> usize {
+        self.conns.lock().unwrap().len()
     }
 
     pub fn logs(&self) -> Vec<ConnLog> {
@@ -122,6 +145,10 @@ async fn serve(io: tokio::io::DuplexStream, log: Arc<Mutex<ConnLog>>, answer: An
             let _ = s.flush().await;
         }
     }
+}
+
+pub fn pool(check_ms: u64, idle_ms: u64, min_idle: usize) -> SessionPoolConfig {
+    SessionPoolConfig { check_interval: Duration::from_millis(check_ms), idle_timeout: Duration::from_millis(idle_ms), min_idle_sessions: min_idle }
 }
 
 pub fn quiet_pool(min_idle: usize) -> SessionPoolConfig {
